@@ -4,7 +4,7 @@ import treegen
 from treegen import coq_term as _ct
 
 PID = "C06"
-TARGETS = ["Run.vo", "Tree_proofs.vo", "Message_proofs.vo"]
+TARGETS = ["Run.vo", "Tree_proofs.vo", "Message_proofs.vo", "NonVacuous/C06.vo"]
 IMPORTS = "From VF Require Import Base Show Gen_Errors Lexer Response Conv Tree Scripted Run."
 ALLOWED_AXIOMS = []
 PROFILES = ["debug"]
